@@ -48,7 +48,7 @@ IMMUTABLE_ATTRS = {
 
 # triaged exception (DESIGN appendix B): one named symbol with its reason
 R5_EXCEPTIONS = {
-    ('Data._unpack_with_string_marker', 'self.delimiter_to_be_included = self.until_marker'):
+    ('Data', 'self.delimiter_to_be_included = self.until_marker'):
         "rewrites the value the constructor already stored on this path (Data.__init__: delimiter_to_be_included = until_marker "
         "when isinstance(until_marker, bytes) and not include_delimiter, which is this strategy's selection condition and this branch's guard)",
 }
@@ -80,7 +80,7 @@ def check_statelessness(ctx, funcs):
             nwrites += 1
             st = '%s: %s' % (wr['kind'], wr['text'])
             k = wr['root']
-            exc = R5_EXCEPTIONS.get((fi.qual, wr['text']))
+            exc = R5_EXCEPTIONS.get((fi.cls.name if fi.cls is not None else '', wr['text']))
             if exc is not None and exception_still_justified(repo, fi, wr):
                 ctx.holds(rule, fi, st, 'triaged exception: ' + exc, wr['line'])
                 continue
@@ -387,7 +387,12 @@ def check_freshness(ctx):
                     ctx.violation(rule, ini, st, 'the prototype keeps the caller\'s live packet: changing or reusing it after the class was declared changes the defaults of every new packet', n_.lineno)
     # Field.init default and Ref default are copied when the field is declared / initialised
     ref = repo.cls('Ref')
-    lf = ref.methods.get('_lets_find_a_nice_default')
+    lf = None
+    rin = ref.methods.get('__init__')
+    if rin is not None:
+        for n_ in ast.walk(rin.node):
+            if isinstance(n_, ast.Call) and isinstance(n_.func, ast.Attribute) and canon(n_.func.value) == 'self' and [canon(a) for a in n_.args] == ['prototype', 'default']:
+                lf = ref.methods.get(n_.func.attr)
     if lf is not None:
         for n in ast.walk(lf.node):
             if isinstance(n, ast.Assign) and isinstance(n.targets[0], ast.Attribute) and n.targets[0].attr == 'default' \
